@@ -430,6 +430,14 @@ fn judge_writer_trace(iface: usize, o: &Out, st: &mut Stats) -> Result<(bool, bo
                     i += 2;
                     continue;
                 }
+                // the handler returned Ok but an error is reported for the unit right away
+                // (e.g. the response did not fit, or the arguments were rejected after the
+                // call): not a successfully executed query, it must stay silent
+                if matches!(ev.get(i + 2), Some(Ev::Err(_))) {
+                    failure = true;
+                    i += 2;
+                    continue;
+                }
                 let Some(val) = want else {
                     return Err(("harness".into(), format!("handler {h} succeeded although the harness expected it to fail")));
                 };
